@@ -358,6 +358,10 @@ def run(P, R):
     r4 = R.rule('R4', 'interprocedural exception flow', 'only RPCError can leave a public RPCInterface method '
                 '(explicit raises; same analysis as C16.R1b)', 40)
     rule_rpc_escape(P, R, r4, Escape(P))
+    # (implicit exceptions are outside that analysis; one family is decided: the process part of a namespec parameter,
+    # None for a group, is only dereferenced behind a test - same obligations as C16.R4)
+    from . import shared as _shared17
+    _shared17.process_of_namespec_tested(P, R, r4)
     # a documented INCORRECT_PARAMETERS: numprocs must be STRICTLY positive when it reaches the Supervisor updater
     un = P.unit('RPCInterface.update_numprocs')
     fmu = factmap(un)
